@@ -70,11 +70,11 @@ public:
  * @f]
  * for a transformation from ] b, +inf [ to ]-inf, + inf [.
  * The 'b' parameter is the lower bound and 'a' is a scaling factor set to 1 by default.
- * For a transformation from  ] -inf, b [, the transformation is then
+ * For a transformation from  ] -inf, b [, the mirror image is used (a decreasing map):
  * @f[
  * x' = \begin{cases}
- *   -\log(-a\cdot(x-b)) & \text{if $x < b-1$},\\
- *   -a(x-1-b)           & \text{if $a \geq b-1$}.
+ *   \log(-a\cdot(x-b)) & \text{if $x > b-1$},\\
+ *   -a(x+1-b)          & \text{if $x \leq b-1$}.
  * \end{cases}
  * @f]
  */
@@ -114,7 +114,7 @@ public:
     if (positive_  & (value < 1 + bound_)) setValue(log(scale_ * (value - bound_)));
     if (positive_  & (value >= 1 + bound_)) setValue(scale_ * (value - 1. - bound_));
     if (!positive_ & (value > -1 + bound_)) setValue(log(-scale_ * (value - bound_)));
-    if (!positive_ & (value <= -1 + bound_)) setValue(-scale_ * (value - 1. - bound_));
+    if (!positive_ & (value <= -1 + bound_)) setValue(-scale_ * (value + 1. - bound_));
   }
 
   double getOriginalValue() const
@@ -123,7 +123,7 @@ public:
     if (positive_)
       if (x < 0) return exp(x) / scale_ + bound_;
       else return x / scale_ + 1. + bound_;
-    else if (x < 0) return -exp(-x) / scale_ + bound_;
+    else if (x < 0) return -exp(x) / scale_ + bound_;
     else return -x / scale_ - 1. + bound_;
   }
 
@@ -133,7 +133,7 @@ public:
     if (positive_)
       if (x < 0) return exp(x) / scale_;
       else return 1. / scale_;
-    else if (x < 0) return exp(-x) / scale_;
+    else if (x < 0) return -exp(x) / scale_;
     else return -1. / scale_;
   }
 
@@ -143,7 +143,7 @@ public:
     if (positive_)
       if (x < 0) return exp(x) / scale_;
       else return 0;
-    else if (x < 0) return -exp(-x) / scale_;
+    else if (x < 0) return -exp(x) / scale_;
     else return 0;
   }
 };
